@@ -280,6 +280,7 @@ _add('C11', [('/wsync', '(*Context).uniqueHash')])
 _add('C04', [('/wsync', '(*Context).uniqueHash')])
 _add('C08', [('/pwr', '(*DiffContext).WritePatch')])
 _add('C10', [('/bsdiff/lrufile', '(*lruFile).Read')])
+_add('C16', [('/pwr', '(*ArchiveHealer).healOne')])
 CLAIMED = {'C02', 'C03', 'C15', 'C19', 'C18', 'C04', 'C09', 'C17', 'C11', 'C08', 'C01', 'C10', 'C12', 'C07', 'C14', 'C13', 'C05', 'C16', 'C06'}
 # reasons for properties not claimed (kept current)
 NOT_APPLICABLE = {}
